@@ -292,6 +292,17 @@ func vh_C10_cookie_roundtrip() {
 	if ndBool("has-group") {
 		s.Groups = []string{ndString("group")}
 	}
+	// a session that was never stamped (no creation time, or the zero time): Save stamps it now
+	unstamped := ndChoice("created-at", 3)
+	switch unstamped {
+	case 1:
+		s.CreatedAt = nil
+	case 2:
+		s.CreatedAt = &time.Time{}
+	}
+	if unstamped != 0 {
+		verifAssume(age == 0)
+	}
 	rw := &vRW{}
 	verifIssueBegin()
 	err = store.Save(rw, vReq("app.example"), s)
@@ -319,7 +330,12 @@ func vh_C10_cookie_roundtrip() {
 		if len(s.Groups) == 1 && len(got.Groups) == 1 {
 			verifAssert("C10.roundtrip.groups-intact", got.Groups[0] == s.Groups[0])
 		}
-		verifAssert("C10.roundtrip.created-at-intact", got.CreatedAt != nil && got.CreatedAt.Unix() == created.Unix())
+		if unstamped == 0 {
+			verifAssert("C10.roundtrip.created-at-intact", got.CreatedAt != nil && got.CreatedAt.Unix() == created.Unix())
+		} else {
+			verifReach("unstamped-session-loaded")
+			verifAssert("C10.roundtrip.unstamped-session-stamped-now", got.CreatedAt != nil && !got.CreatedAt.IsZero())
+		}
 		if store.Minimal {
 			verifAssert("C10.roundtrip.minimal-drops-tokens", got.AccessToken == "" && got.IDToken == "" && got.RefreshToken == "")
 		} else {
@@ -328,6 +344,7 @@ func vh_C10_cookie_roundtrip() {
 	} else {
 		verifReach("rejected")
 		verifAssert("C09.cookie.rejected-only-outside-lifetime", age >= expireSec || age <= -300)
+		verifAssert("C10.roundtrip.unstamped-session-loads", unstamped == 0)
 	}
 }
 
